@@ -14,7 +14,7 @@ import time
 from .. import core
 
 MIRI_DIR = os.path.join(core.ROOT, "miri")
-LITMUS = ["litmus_get", "litmus_tick", "litmus_restart", "litmus_alloc", "litmus_stream", "litmus_extend"]
+LITMUS = ["litmus_get", "litmus_tick", "litmus_restart", "litmus_alloc", "litmus_stream", "litmus_extend", "litmus_liar"]
 
 
 def run_miri(ctx, seeds):
@@ -82,7 +82,8 @@ def run(ctx):
     ctx.coverage["nucleo_histories"] = len(hist_lines)
     # (c) Miri
     miri = []
-    need_miri = ctx.tier == "thorough" or not st["ok"]
+    # the litmus programs are the search for a failing execution: run them whenever a certificate or the skeleton no longer checks
+    need_miri = ctx.tier == "thorough" or not st["ok"] or bool(diffs)
     if need_miri:
         seeds = [ctx.seed + k for k in range(6 if ctx.tier == "thorough" else 2)]
         t0 = time.time()
@@ -94,8 +95,8 @@ def run(ctx):
              "chain needs; skeleton: seeded schedules of 2-4 real threads at the yield points, every executed site must be the one the model predicts; caller contract "
              "of get_unchecked: on the Nucleo histories of C06 (paused writers, runs cancelled mid-pass, restarts) every index the worker hands to get_unchecked has "
              "reached its publishing store; Miri "
-             "(thorough tier, or when a certificate breaks): litmus_get (eager bucket allocation vs. polling lookup), litmus_tick (injector thread vs. tick/"
-             "snapshot reads vs. 2 pool threads), litmus_restart (old injector pushing across a restart) x seeds",
+             "(thorough tier, or when a certificate or the skeleton breaks): the seven litmus programs of miri/ (eager bucket allocation vs. polling lookup, injector thread vs. tick/"
+             "snapshot reads vs. 2 pool threads, old injector pushing across a restart, racing allocation, streaming iterator, batch into a foreign bucket, batch whose iterator over-yields) x seeds",
         samples=[l[:300] for l in lines[:2]] + [dict(program=m["program"], seed=m["seed"], ok=m["ok"]) for m in miri[:3]],
         schedules=len(lines), sites_executed=nsites, skeleton_mismatches=len(diffs), miri_runs=len(miri),
         miri_races=len([m for m in miri if m["race"]]))
